@@ -207,7 +207,11 @@ func (ce *clauseEnv) tr(x *SX, bound map[string]bool, old bool) *SX {
 			if ft, ok := ce.e.w.Fields[key]; ok {
 				arr := ce.e.heapArr(ce.st, key, ft)
 				if old {
-					arr = ce.st.heap0[key]
+					if a0, ok := ce.heap0[key]; ok && a0 != "" {
+						arr = a0
+					} else if ce.mode != clauseEntry || ce.names == nil {
+						arr = ce.e.heapInit[key]
+					}
 				}
 				return atom(arr)
 			}
@@ -220,10 +224,15 @@ func (ce *clauseEnv) tr(x *SX, bound map[string]bool, old bool) *SX {
 			hp = ce.heap0
 		}
 		arr, ok := hp[h]
-		if !ok {
+		if !ok || arr == "" {
 			arr = ce.e.heapArr(ce.st, h, ft)
 			if old {
-				arr = ce.st.heap0[h]
+				// a field that was never touched before this point still holds its entry value
+				if a0, ok := ce.heap0[h]; ok && a0 != "" {
+					arr = a0
+				} else if ce.mode != clauseEntry || ce.names == nil {
+					arr = ce.e.heapInit[h]
+				}
 			}
 		}
 		return slist(atom("select"), atom(arr), ce.tr(x.List[1], bound, old))
